@@ -20,7 +20,7 @@ func init() {
 
 const subSDL = `
 type Query { x: Int }
-type Subscription { listen(topic: String): Event }
+type Subscription { listen(topic: String): Event must(topic: String): Event! batch(topic: String): [Event!]! many(topic: String): [Event] }
 type Event { id: ID n: Int tag: String inner: Inner list: [Int] }
 type Inner { v: Int w: String }
 `
@@ -109,10 +109,20 @@ type hSub struct {
 	failOn  map[int]bool // k-th delivery (0-based) fails
 	count   int32
 	sels    []model.Sel
+	field   string // the subscription field: listen | must (one event object per publish), batch | many (list-typed: a publish carries a slice)
 	current *int64 // the event being published by the (single) sequential publisher, for attribution
 }
 
-func (s *hSub) Match(id string) bool { return s.topic == "*" || s.topic == id }
+// Match: events that are slices are published under ids starting with "B:" and concern the subscribers of the list-typed
+// subscription fields only (and the other way round); within its kind a subscriber listens to one topic or to all.
+func (s *hSub) Match(id string) bool {
+	listID := strings.HasPrefix(id, "B:")
+	if listID != (s.field == "batch" || s.field == "many") {
+		return false
+	}
+	id = strings.TrimPrefix(id, "B:")
+	return s.topic == "*" || s.topic == id
+}
 
 func (s *hSub) Send(value interface{}) error {
 	k := int(atomic.AddInt32(&s.count, 1)) - 1
@@ -165,7 +175,9 @@ func (*subQuery) Resolve(field *ggql.Field, args map[string]interface{}) (interf
 type subSubscriptions struct{ r *subRootObj }
 
 func (s *subSubscriptions) Resolve(field *ggql.Field, args map[string]interface{}) (interface{}, error) {
-	if field.Name != "listen" {
+	switch field.Name {
+	case "listen", "must", "batch", "many":
+	default:
 		return nil, fmt.Errorf("no field %s", field.Name)
 	}
 	s.r.mu.Lock()
@@ -210,12 +222,14 @@ func subSelection(r *rand.Rand) []model.Sel {
 	return sels
 }
 
-func subRequestText(topic string, sels []model.Sel) string { return subRequestTextV(topic, sels, 0) }
+func subRequestText(topic string, sels []model.Sel) string {
+	return subRequestTextV("listen", topic, sels, 0)
+}
 
 // subRequestTextV writes the subscription request; form 1 puts the root field inside an inline fragment, form 2 inside a
 // named fragment that is spread (defined after the operation), form 3 the same with the definition first.
-func subRequestTextV(topic string, sels []model.Sel, form int) string {
-	var root model.Sel = &model.Field{Name: "listen", Args: []model.Arg{{Name: "topic", Value: topic}}, Sels: sels}
+func subRequestTextV(fieldName, topic string, sels []model.Sel, form int) string {
+	var root model.Sel = &model.Field{Name: fieldName, Args: []model.Arg{{Name: "topic", Value: topic}}, Sels: sels}
 	d := &model.Doc{}
 	switch form {
 	case 1:
@@ -264,6 +278,11 @@ func runC19(c *run.Ctx) {
 		}
 		var current int64 = -1
 		exeCache := map[string]*ggql.Executable{}
+		type keptReq struct {
+			text, topic, field string
+			sels               []model.Sel
+		}
+		var kept []keptReq
 		reusedExe := 0
 		var entries []*subModelEntry
 		var hist []string
@@ -278,7 +297,11 @@ func runC19(c *run.Ctx) {
 		for st := 0; st < steps && !bad; st++ {
 			switch k := r.Intn(10); {
 			case k < 3 || len(entries) == 0: // subscribe
-				h := &hSub{sid: len(entries), log: lg, failOn: map[int]bool{}, sels: subSelection(r), current: &current}
+				h := &hSub{sid: len(entries), log: lg, failOn: map[int]bool{}, sels: subSelection(r), current: &current, field: "listen"}
+				if r.Intn(3) == 0 {
+					h.field = []string{"must", "batch", "many", "batch"}[r.Intn(4)]
+				}
+				c.Bucket("subscription_field", h.field)
 				topic := topics[r.Intn(len(topics))]
 				if r.Intn(4) == 0 {
 					for j, m := 0, 1+r.Intn(2); j < m; j++ {
@@ -292,12 +315,20 @@ func runC19(c *run.Ctx) {
 				if r.Intn(4) == 0 {
 					form = 1 + r.Intn(3)
 				}
-				text := subRequestTextV(topic, h.sels, form)
+				text := subRequestTextV(h.field, topic, h.sels, form)
 				hist = append(hist, fmt.Sprintf("subscribe#%d topic=%s fail=%v %s", h.sid, topic, keysOfBool(h.failOn), strings.TrimSpace(text)))
 				var res map[string]interface{}
 				// a third of the subscription requests are made with a parsed executable that is kept and used again for the
 				// next subscription with the same text (one client library, many connections)
 				viaExe := r.Intn(3) == 0
+				if viaExe && len(kept) > 0 && r.Intn(2) == 0 {
+					// the same request as an earlier subscriber's, through the executable parsed back then
+					k := kept[r.Intn(len(kept))]
+					text, topic, h.sels, h.field = k.text, k.topic, k.sels, k.field
+					hist[len(hist)-1] = fmt.Sprintf("subscribe#%d topic=%s fail=%v %s", h.sid, topic, keysOfBool(h.failOn), strings.TrimSpace(text))
+				} else if viaExe {
+					kept = append(kept, keptReq{text, topic, h.field, h.sels})
+				}
 				pv, _ := run.Protect(func() {
 					if !viaExe {
 						res = root.ResolveString(text, "", nil)
@@ -338,10 +369,29 @@ func runC19(c *run.Ctx) {
 				evSeq++
 				ev := &subEvent{uid: evSeq, id: fmt.Sprintf("e%d", evSeq), n: r.Intn(100), tag: fmt.Sprintf("t%d", r.Intn(10)), v: r.Intn(9), list: []interface{}{r.Intn(5), nil, r.Intn(5)}}
 				current = evSeq
-				hist = append(hist, fmt.Sprintf("publish topic=%s event=%s", topic, ev.id))
+				var payload interface{} = ev
+				evs := []*subEvent{ev}
+				if r.Intn(4) == 0 {
+					// a publish for the list-typed subscription fields: the event is a slice of 0-3 event objects
+					topic = "B:" + topic
+					evs = nil
+					var sl []interface{}
+					for j, m := 0, r.Intn(4); j < m; j++ {
+						e2 := &subEvent{uid: evSeq, id: fmt.Sprintf("e%d.%d", evSeq, j), n: r.Intn(100), tag: fmt.Sprintf("t%d", r.Intn(10)), v: r.Intn(9), list: []interface{}{r.Intn(5)}}
+						evs = append(evs, e2)
+						sl = append(sl, e2)
+					}
+					if sl == nil {
+						sl = []interface{}{}
+					}
+					payload = sl
+					hist = append(hist, fmt.Sprintf("publish topic=%s event=slice of %d", topic, len(sl)))
+				} else {
+					hist = append(hist, fmt.Sprintf("publish topic=%s event=%s", topic, ev.id))
+				}
 				var cnt int
 				var err error
-				pv, _ := run.Protect(func() { cnt, err = root.AddEvent(topic, ev) })
+				pv, _ := run.Protect(func() { cnt, err = root.AddEvent(topic, payload) })
 				if pv != nil {
 					fail(fmt.Sprintf("publish panics: %v", pv))
 					bad = true
@@ -352,7 +402,15 @@ func runC19(c *run.Ctx) {
 				anyFail := false
 				for _, e := range entries {
 					if e.live && e.h.Match(topic) {
-						d := delivery{Sub: e.h.sid, Event: evSeq, Msg: expectedMessage(ms, e.h.sels, ev), Fail: e.h.failOn[e.expected]}
+						msg := expectedMessage(ms, e.h.sels, ev)
+						if strings.HasPrefix(topic, "B:") {
+							parts := make([]string, len(evs))
+							for j, e2 := range evs {
+								parts[j] = expectedMessage(ms, e.h.sels, e2)
+							}
+							msg = "[" + strings.Join(parts, ",") + "]"
+						}
+						d := delivery{Sub: e.h.sid, Event: evSeq, Msg: msg, Fail: e.h.failOn[e.expected]}
 						e.expected++
 						want = append(want, d)
 						if d.Fail {
@@ -399,6 +457,9 @@ func runC19(c *run.Ctx) {
 				c.Count("deliveries_checked", len(want))
 			default: // unsubscribe
 				id := topics[r.Intn(len(topics))]
+				if r.Intn(4) == 0 {
+					id = "B:" + id
+				}
 				hist = append(hist, "unsubscribe "+id)
 				var cnt int
 				pv, _ := run.Protect(func() { cnt = root.Unsubscribe(id) })
